@@ -83,6 +83,11 @@ Definition unknown_length_statement (fixed : bool) : Prop :=
     forall aes_ok E D b64enc b64dec limit key wire resp,
     o_seen (crypt_handler fixed aes_ok E D b64enc b64dec limit key (-1) wire resp) = wire.
 
+(* TODAY: the repair (commit f372be8 of /repo, pending/C18-unknown-length.diff) is in the tree.
+   A tree that loses it regenerates the flag as false and this obligation breaks. *)
+Lemma unknown_length_repair_is_in : unknown_length_fix = true.
+Proof. reflexivity. Qed.
+
 Theorem unknown_length_today : unknown_length_statement unknown_length_fix.
 Proof.
   cbv [unknown_length_statement unknown_length_fix].
